@@ -198,6 +198,11 @@ Fixpoint run (af : bool) (tags : list (bytes * bytes)) (s : st) (sched : list la
 Definition init (pre : list event) (c0 : nat) : st :=
   {| log := pre; cfrm := c0; infl := []; queue := []; desc := None; wrk := None; dst := []; alive := true |}.
 
+(* the same, but WriteEvents of writes that completed before CREATE PIPE are still in the channel (the notificatior
+   goroutine lags behind the writers) *)
+Definition init_stale (pre : list event) (q : list (nat * nat)) : st :=
+  {| log := pre; cfrm := length pre; infl := []; queue := q; desc := None; wrk := None; dst := []; alive := true |}.
+
 (* what the property asks the destination to hold for this source *)
 Definition expected (tags : list (bytes * bytes)) (base : nat) (l : list event) : list devent :=
   map (transform tags) (filter e_keep (skipn base l)).
@@ -232,3 +237,23 @@ Definition sched_write_late (b : list event) : list label :=
 Definition kv_eqb (a b : bytes * bytes) : bool := bytes_eqb (fst a) (fst b) && bytes_eqb (snd a) (snd b).
 Definition devent_eqb (a b : devent) : bool :=
   Z.eqb (d_ts a) (d_ts b) && bytes_eqb (d_msg a) (d_msg b) && list_eqb kv_eqb (d_flds a) (d_flds b).
+
+(* ---- many sources under one pipe: every source has its own descriptor, worker and (restriction of the FIFO)
+   channel; a product schedule interleaves the steps of all sources ---- *)
+Fixpoint pstep (af : bool) (tagss : list (list (bytes * bytes))) (ss : list st) (i : nat) (l : label) : list st :=
+  match ss, tagss, i with
+  | s :: tl, tg :: ttl, O => step af tg s l :: tl
+  | s :: tl, _ :: ttl, S j => s :: pstep af ttl tl j l
+  | _, _, _ => ss
+  end.
+Fixpoint prun (af : bool) (tagss : list (list (bytes * bytes))) (ss : list st) (sched : list (nat * label)) : list st :=
+  match sched with
+  | [] => ss
+  | (i, l) :: tl => prun af tagss (pstep af tagss ss i l) tl
+  end.
+(* the steps of source i in a product schedule *)
+Fixpoint proj (i : nat) (sched : list (nat * label)) : list label :=
+  match sched with
+  | [] => []
+  | (j, l) :: tl => if j =? i then l :: proj i tl else proj i tl
+  end.
